@@ -1434,6 +1434,72 @@ pub fn c06_nested_operators() {
     check!(got == Ok(want), "nested operator nodes yield the value of the same shape evaluated with short-circuiting");
     check!(*log.lock().unwrap() == *want_log.borrow(), "exactly the operands that short-circuit evaluation needs are evaluated, in order");
 }
+/// C07 / C20: a receiver-style call of a host function that needs more positional arguments than were written is an
+/// InvalidArgumentCount error after ONE attempt: receiver and arguments are evaluated once, nothing is re-bound or replayed.
+pub fn c07_method_too_few_arguments() {
+    let case: u8 = any();
+    crate::sym::assume(case <= 2);
+    let log: Arc<Mutex<Vec<i64>>> = Arc::new(Mutex::new(Vec::new()));
+    let l = log.clone();
+    let mut ctx = Context::default();
+    ctx.add_function("log", move |v: i64| -> i64 {
+        l.lock().unwrap().push(v);
+        v
+    });
+    ctx.add_function("pair", |a: i64, b: i64| a * 100 + b);
+    ctx.add_function("triple", |a: i64, b: i64, c: i64| a * 10000 + b * 100 + c);
+    let (src, want_log): (&str, Vec<i64>) = match case {
+        0 => ("log(1).pair(log(2))", vec![1, 2]),
+        1 => ("log(1).triple(log(2), log(3))", vec![1, 2, 3]),
+        _ => ("log(1).pair()", vec![1]),
+    };
+    let got = Program::compile(src).expect("compiles").execute(&ctx);
+    check!(matches!(got, Err(ExecutionError::InvalidArgumentCount { .. })), "a missing positional argument is an InvalidArgumentCount error, never an invocation with other data");
+    check!(*log.lock().unwrap() == want_log, "receiver and arguments are evaluated once each, left to right");
+}
+/// C04: a parenthesised `&&` / `||` group is one operand of the enclosing chain of the same operator - the tree keeps the
+/// grouping that the parentheses wrote (read back as a fully parenthesised text and compared).
+pub fn c04_grouped_chain() {
+    use cel_parser::ast::{Expr, IdedExpr};
+    let (op, case): (u8, u8) = (any(), any());
+    crate::sym::assume(op <= 1 && case <= 5);
+    let o = if op == 0 { "||" } else { "&&" };
+    fn render(e: &IdedExpr) -> String {
+        match &e.expr {
+            Expr::Ident(n) => n.clone(),
+            Expr::Call(c) if c.args.len() == 2 && c.target.is_none() => {
+                let name = c.func_name.trim_matches('_');
+                format!("({} {} {})", render(&c.args[0]), name, render(&c.args[1]))
+            }
+            other => format!("<{:?}>", other),
+        }
+    }
+    // sources whose grouping is fully determined by their parentheses
+    let src = match case {
+        0 => format!("a {o} (b {o} c)"),
+        1 => format!("(a {o} b) {o} c"),
+        2 => format!("a {o} (b {o} c) {o} d"),
+        3 => format!("a {o} b {o} (c {o} d)"),
+        4 => format!("(a {o} (b {o} c)) {o} d"),
+        _ => format!("a {o} ((b {o} c) {o} d)"),
+    };
+    let tree = cel_parser::Parser::new().parse(&src).expect("parses");
+    let text = render(&tree);
+    // every parenthesised group of the source must be a sub-tree: its rendering occurs in the tree's rendering
+    let groups: Vec<String> = match case {
+        0 => vec![format!("(b {o} c)")],
+        1 => vec![format!("(a {o} b)")],
+        2 => vec![format!("(b {o} c)")],
+        3 => vec![format!("(c {o} d)")],
+        4 => vec![format!("(b {o} c)"), format!("(a {o} (b {o} c))")],
+        _ => vec![format!("(b {o} c)"), format!("((b {o} c) {o} d)")],
+    };
+    check!(groups.iter().all(|g| text.contains(g.as_str())), "a parenthesised group of the same operator stays one operand of the enclosing chain");
+    // and the operands are read in source order
+    let leaves: String = text.chars().filter(|c| c.is_ascii_lowercase()).collect();
+    let want: String = src.chars().filter(|c| c.is_ascii_lowercase()).collect();
+    check!(leaves == want, "the operands appear in source order");
+}
 /// C04 visitor half: a run of k prefix operators applies the operator k times (an even run cancels).
 pub fn c04_prefix() {
     let (op, k, operand): (u8, u8, u8) = (any(), any(), any());
@@ -1998,6 +2064,8 @@ crate::replay_only! {
     #[kani::unwind(2)] c09_min_max: "off", "min(..) / max(..) over 1-4 numbers of mixed kinds, separate arguments or one list, judged by the language's own comparisons", "2 functions x 2 forms x 1-4 values x 24 orders";
     #[kani::unwind(2)] c14_size_affixes: "off", "size / startsWith / endsWith through Program::compile + execute on lists, maps, strings (non-ASCII included) and bytes, additivity over +", "6 cases x 4 x 4 operands";
     #[kani::unwind(2)] c06_nested_operators: "off", "else-if ladders, nested conditionals, && / || chains of either grouping and double negation over logging operands through Program::compile + execute, against Rust's short-circuit evaluation", "9 shapes x 8 truth assignments";
+    #[kani::unwind(2)] c07_method_too_few_arguments: "off", "receiver-style calls of positional host functions with too few arguments over logging operands, through Program::compile + execute", "three call shapes";
+    #[kani::unwind(2)] c04_grouped_chain: "off", "parenthesised && / || groups inside a chain of the same operator through cel_parser::Parser::parse, the tree rendered back and compared", "2 operators x 6 groupings";
     #[kani::unwind(2)] c12_literal: "off", "a string / bytes literal token through Program::compile + execute against an independent decoder of the CEL literal syntax", "token text of up to 24 characters taken from the vector";
     #[kani::unwind(2)] c13_string_roundtrip: "off", "int(string(x)) / uint(string(x)) / double(string(x)) through Program::compile + execute", "payload bits from the vector";
     #[kani::unwind(2)] c13_literal: "off", "int / uint literals of every sign, radix and magnitude through Program::compile + execute", "text built from the vector";
